@@ -444,9 +444,10 @@ class C25(Property):
                         r = ("exc:" + type(e).__name__, None)
                     results.append(r)
                     if c["timeout"]:
+                        # release the first execution, still blocked in the shell (the file stays: under load the shell-side
+                        # polling loop may need longer than any fixed delay to see it)
                         open(go_file, "w").close()
                         await asyncio.sleep(0.3)
-                        os.unlink(go_file)
                 await asyncio.sleep(0.2)
                 for i in range(len(seq)):
                     cnt = os.path.join(base, f"c{i}")
